@@ -199,10 +199,10 @@ func cmdCheck(args []string) int {
 		fmt.Fprintf(os.Stderr, "INCONCLUSIVE property=%s: no harness\n", id)
 		return 2
 	}
-	cfg := Config{Solver: *solver, TimeoutMs: *timeout, Unwind: 256, StepLimit: 20_000_000, CaseMax: 32, Workers: *workers, SolverLog: *slog, Trace: *trace}
+	cfg := Config{Solver: *solver, TimeoutMs: *timeout, Unwind: 1024, StepLimit: 20_000_000, CaseMax: 32, Workers: *workers, SolverLog: *slog, Trace: *trace}
 	if *tier == "thorough" {
 		cfg.Tier = 1
-		cfg.Unwind = 1024
+		cfg.Unwind = 4096
 		cfg.StepLimit = 200_000_000
 	}
 	R := NewResults()
@@ -319,7 +319,7 @@ func cmdCheck(args []string) int {
 		cfg2 := cfg
 		cfg2.Solver = *cross
 		cfg2.Tier = 0
-		cfg2.Unwind = 256
+		cfg2.Unwind = 1024
 		R2 := NewResults()
 		q2 := newQueue(cfg2.Workers)
 		theQueue = q2
